@@ -2297,6 +2297,25 @@ type psession = { p_layers : hopt list list; p_ops : sop list; p_end : ending }
 
 val run_psession : fsys -> psession -> (((fsys * hcfg) * str list) * str) res
 
+type 'a pstep =
+| PDo of 'a
+| PTry of ending * bool
+
+val amounts_to : 'a1 pstep list -> ending -> 'a1 list * ending
+
+val loop_steps : sess -> sop pstep list -> (sess * ending option) res
+
+val nohist_loop :
+  str -> str list -> sop pstep list -> (str * str list) * ending option
+
+type lsession = { l_layers : hopt list list; l_steps : sop pstep list;
+                  l_end : ending }
+
+val or_end : ending option -> ending -> ending
+
+val run_lsession :
+  fsys -> lsession -> ((((fsys * hcfg) * str list) * str) * ending) res
+
 val vfs : fs -> val0
 
 val as_fs : val0 -> fs
@@ -2328,6 +2347,16 @@ val as_cfg0 : val0 -> hcfg
 val fsys_of : val0 list -> fsys
 
 val d_psessions : str list -> fsys -> psession list -> val0 list
+
+val vending : ending -> val0
+
+val as_pstep : val0 -> sop pstep
+
+val as_lsession : val0 -> lsession
+
+val vsop : sop -> val0
+
+val d_lsessions : str list -> fsys -> lsession list -> val0 list
 
 val dispatch_history : z -> val0 -> val0 option
 
@@ -5490,7 +5519,7 @@ type pop =
 
 val reg : slice3 list -> nat -> slice3 res
 
-val pstep : tmem -> slice3 list -> pop -> (tmem * slice3 list) res
+val pstep0 : tmem -> slice3 list -> pop -> (tmem * slice3 list) res
 
 val prun : tmem -> slice3 list -> pop list -> (tmem * slice3 list) res
 
